@@ -11,8 +11,9 @@ Model of `sign/tbls/tbls.go` (`Sign`, `Verify`, `Recover`) and `sign/bls/bls.go`
   equivalent in every non-degenerate bilinear pairing, and the correspondence run compares the
   model's verdicts with the real pairing code on every case.
 
-`Recover` is modelled AS REPAIRED in /repo (commits 4404707, 3dee076, f036cda): unparsable
-entries are skipped, one share per index, indices outside `[0,n)` do not count.
+`Recover` is modelled AS REPAIRED in /repo (commits 4404707, 3dee076, f036cda, 3cdfff8):
+unparsable entries are skipped, one share per index, indices outside `[0,n)` do not count, and a
+threshold `t` smaller than `public.Threshold()` (the number of coefficients) is refused.
 -/
 import DosModel.Model.Share
 
@@ -27,6 +28,7 @@ structure Codec (P : Type) where
 inductive Res where
   | ok (sig : Bytes)
   | errFew        -- share.RecoverCommit: not enough good public shares
+  | errThreshold  -- t < public.Threshold() (guard of /repo 3cdfff8)
   | errDecode     -- point.UnmarshalBinary failed after bls.Verify succeeded (unreachable)
   | panic (s : Site)
   deriving DecidableEq, Repr
@@ -104,13 +106,15 @@ def collect (cd : Codec P) (pub : List S) (hm : P) (t n : Nat) :
 
 /-- `tbls.Recover` -/
 def recover (cd : Codec P) (pub : List S) (hm : P) (sigs : List Bytes) (t n : Nat) : Res :=
-  match collect cd pub hm t n (uniq sigs) [] [] with
-  | none => .errDecode
-  | some shares =>
-    match recoverCommit (S := S) true (shares.map some) t n with
-    | .ok c => .ok (cd.encode c)
-    | .err _ => .errFew
-    | .panic s => .panic s
+  if t < pub.length then .errThreshold
+  else
+    match collect cd pub hm t n (uniq sigs) [] [] with
+    | none => .errDecode
+    | some shares =>
+      match recoverCommit (S := S) true (shares.map some) t n with
+      | .ok c => .ok (cd.encode c)
+      | .err _ => .errFew
+      | .panic s => .panic s
 
 end
 end Dos.Tbls
